@@ -1,6 +1,6 @@
 SPECIFICATION SSpec
 CONSTANTS P = 59
- K = 5
+ K = 3
  NModes = 5
  Seed = 1
 INVARIANT Emit
